@@ -24,6 +24,31 @@ func c08Exec(op string) string {
 		}
 		mxj.SetFieldSeparator(sep)
 		vs, err := mxj.Map(m).ValuesForKey(key, subs...)
+		// ValueForKey is the first of those values, and the documented error when there is none
+		note := ""
+		if v1, e1 := mxj.Map(m).ValueForKey(key, subs...); err == nil {
+			switch {
+			case len(vs) == 0 && e1 == nil:
+				note = "FIRSTKEY ValuesForKey yields nothing but ValueForKey returned a value"
+			case len(vs) > 0 && e1 != nil:
+				note = "FIRSTKEY ValuesForKey yields values but ValueForKey fails: " + oneLine(e1.Error())
+			case len(vs) > 0:
+				found := false
+				for _, x := range vs {
+					if enc(x) == enc(v1) {
+						found = true
+					}
+				}
+				if !found {
+					note = "FIRSTKEY ValueForKey returned " + clip(enc(v1), 100) + ", which is none of the values of ValuesForKey"
+				}
+			}
+		} else if e1 == nil {
+			note = "FIRSTKEY ValuesForKey fails but ValueForKey succeeds"
+		}
+		if note != "" {
+			return showRes(vs, err) + " | " + note
+		}
 		return showRes(vs, err)
 	case "pfk":
 		m := c.mapVal()
@@ -113,6 +138,11 @@ func c08Judge(op, impl, model string) Verdict {
 		return v
 	}
 	mp := splitModel(model)
+	if ipx := splitModel(impl); name == "vfk" && len(ipx) > 1 && strings.HasPrefix(ipx[len(ipx)-1], "FIRSTKEY") {
+		v.OracleFail = ipx[len(ipx)-1]
+		v.Sig = "vfk:firstkey"
+		impl = strings.Join(ipx[:len(ipx)-1], " | ")
+	}
 	switch name {
 	case "vfk":
 		v.CorrOK = canonRes(impl, true) == canonRes(mp[0], true)
